@@ -491,7 +491,7 @@ func (w *World) Send(s SendSpec) TxResult {
 		}
 	}
 	data := packettypes.CrossChainData{DstChain: dstID, TokenAddress: token, Receiver: recv, Amount: big.NewInt(s.Amt),
-		ContractAddress: contractAddr, CallData: cd, CallbackAddress: zeroAddr, FeeOption: 0}
+		ContractAddress: contractAddr, CallData: cd, CallbackAddress: zeroAddr, FeeOption: feeOptionOf(s)}
 	if s.Callback {
 		data.CallbackAddress = w.Origin[s.Src] // a contract that does not implement the acknowledgement callback
 	}
@@ -689,6 +689,8 @@ func (w *World) alterPacket(bz []byte, alt string) ([]byte, packettypes.Packet) 
 		p.Sequence++
 	case "sender":
 		p.Sender = strings.ToLower(w.Marker.String())
+	case "feeopt":
+		p.FeeOption ^= 7 // the fee option the sender chose, rewritten
 	case "src":
 		p.SrcChain = p.SrcChain + "x"
 	case "dst":
@@ -1032,4 +1034,13 @@ func unscale(v int64) int64 {
 func worldScale() uint8 {
 	n, _ := strconv.Atoi(os.Getenv("VERIF_XIBC_SCALE"))
 	return uint8(n)
+}
+
+// feeOptionOf: the fee option of a send is an ordinary argument of endpoint.crossChainCall carried in the packet and
+// echoed in the acknowledgement; sends that pay a fee choose option 7, the others the default 0
+func feeOptionOf(s SendSpec) uint64 {
+	if s.Fee > 0 {
+		return 7
+	}
+	return 0
 }
